@@ -24,7 +24,7 @@ func c01Families() []*model.Family {
 			Leaves: []model.SKind{model.SCmd, model.SBreak, model.SContinue},
 			Shapes: []model.Shape{model.ShIf, model.ShIfElse, model.ShWhile, model.ShWhileInf, model.ShDoWhile}},
 		{Name: "labels", NoAdjCmd: true,
-			Leaves: []model.SKind{model.SCmd, model.SEnd, model.SReturn, model.SLabel, model.SGoto},
+			Leaves: []model.SKind{model.SCmd, model.SEnd, model.SReturn, model.SLabel, model.SGoto, model.SGotoIf},
 			Shapes: []model.Shape{model.ShIf, model.ShIfElse, model.ShWhile}},
 		{Name: "loops+labels", NoAdjCmd: true, LeafStyle: 1,
 			Leaves: []model.SKind{model.SCmd, model.SBreak, model.SLabel, model.SGoto},
